@@ -4,7 +4,7 @@ Driver.Sevm — runs the Model.Sevm exploration core on a program (one reply per
   run <codehex> <nargs> <loop> <depth> <fuel> <oracle>
       nargs  : number of symbolic 32-byte calldata words a0.. after a 4-byte concrete selector 12345678
       oracle : unknown | sat      (what the solver behind Path.check answers to every query; both are OracleSound);
-               a trailing `+static` runs the frame with is_static set
+               a trailing `+static` runs the frame with is_static set; `+tx2`: two transactions, see `runReq`
    -> ends=<kind@pc,…|-> bounded=<n> depthcut=<0|1> fuelout=<0|1>
   eval <codehex> <nargs> <loop> <depth> <fuel> <oracle> <a0,a1,…> <caller> <origin> <value>     (hex values)
    -> sat=<kind@pc:datahex:storage,…|->   the end states whose path the inputs satisfy, with their data evaluated and
@@ -131,14 +131,36 @@ def outName (e : EndState) : String :=
 
 def MAIN : Nat := 0x1000
 
+/-- an end without error (what `setup()` keeps of setUp): untagged success -/
+def okEndD (ce : CEnd) : Bool :=
+  ce.e.tag == .normal && (match ce.e.out with | .halt (.success _) => true | _ => false)
+
+/-- the run of a request. Plain: `runC` of the message with `nargs` symbolic words. With `+tx2` in the oracle field: the
+    same code first runs the message with NO argument words (the "setUp" transaction); if exactly one of its ends is
+    without error, the message with `nargs` words runs from it (`nextTx`, `runCFrom`: `SEVM.run_message`) and the reply
+    describes that second run (its log entries only); otherwise the reply is `setup:<number of such ends>` -/
+def runReq (o : Oracle) (cfg : Cfg) (nargs : Nat) (static two : Bool) (codes : List (Nat × List Nat)) (fuel : Nat) :
+    Except String (ResultC × Nat) :=
+  if two then
+    let res1 := runC drvSimp o cfg (mkEnv 0 false) codes MAIN fuel
+    match res1.ends.filter okEndD with
+    | [ce1] => .ok (runCFrom drvSimp o cfg codes fuel (nextTx codes (mkEnv nargs static) MAIN ce1), ce1.logs.length)
+    | l => .error s!"setup:{l.length}"
+  else .ok (runC drvSimp o cfg (mkEnv nargs static) codes MAIN fuel, 0)
+
+def hasTx2 (orc : String) : Bool := (orc.splitOn "+").contains "tx2"
+def hasStatic (orc : String) : Bool := (orc.splitOn "+").contains "static"
+
 def handle (codes : List (Nat × List Nat)) (line : String) : String :=
   match line.trimAscii.toString.splitOn " " with
   | ["run", code, nargs, loop, depth, fuel, orc] =>
     match hexBytes? code, nargs.toNat?, loop.toNat?, depth.toNat?, fuel.toNat? with
     | some code, some nargs, some loop, some depth, some fuel =>
       let o : Oracle := fun _ _ => if orc.startsWith "sat" then .sat else .unknown
-      let static := orc.endsWith "+static"
-      let res := runC drvSimp o { loop, depth, balances := true, sha3 := true, create := true, hsto := true } (mkEnv nargs static) ((MAIN, code) :: codes) MAIN fuel
+      let static := hasStatic orc
+      match runReq o { loop, depth, balances := true, sha3 := true, create := true, hsto := true } nargs static (hasTx2 orc) ((MAIN, code) :: codes) fuel with
+      | .error msg => msg
+      | .ok (res, _) =>
       let ends := (res.ends.map fun e => outName e.e).toArray.qsort (· < ·) |>.toList
       let e := if ends.isEmpty then "-" else ",".intercalate ends
       s!"ends={e} bounded={res.boundedLoops.length} depthcut={if res.depthCut then 1 else 0} fuelout={if res.outOfFuel then 1 else 0}"
@@ -155,8 +177,10 @@ def handle (codes : List (Nat × List Nat)) (line : String) : String :=
           (argv.splitOn ",").mapM hexVal?, hexVal? caller, hexVal? origin, hexVal? value with
     | some code, some nargs, some loop, some depth, some fuel, some args, some caller, some origin, some value =>
       let o : Oracle := fun _ _ => if orc.startsWith "sat" then .sat else .unknown
-      let static := orc.endsWith "+static"
-      let res := runC drvSimp o { loop, depth, balances := true, sha3 := true, create := true, hsto := true } (mkEnv nargs static) ((MAIN, code) :: codes) MAIN fuel
+      let static := hasStatic orc
+      match runReq o { loop, depth, balances := true, sha3 := true, create := true, hsto := true } nargs static (hasTx2 orc) ((MAIN, code) :: codes) fuel with
+      | .error msg => msg
+      | .ok (res, nlog0) =>
       let bvVal (x : String) (_ : Nat) : Nat :=
         if x = "f_sha3_0" then Keccak.keccak256 [] else
         if x = "msg_sender" then caller else if x = "tx_origin" then origin else if x = "msg_value" then value
@@ -207,7 +231,7 @@ def handle (codes : List (Nat × List Nat)) (line : String) : String :=
         let addrs := (cr.map (·.1)).eraseDups.toArray.qsort (· < ·) |>.toList
         String.join (addrs.map fun a => s!"C{hexN a}=" ++ String.join (((codeOf cr a).getD []).map hex2) ++ ";")
       let names := (sat.map fun e =>
-        s!"{outName e.e}:{String.join (e.e.data.map fun b => hex2 (b.eval I))}:{allSto e.stores}{logStr e.logs}{balStr e.bal}{crStr e.created}").toArray.qsort (· < ·) |>.toList
+        s!"{outName e.e}:{String.join (e.e.data.map fun b => hex2 (b.eval I))}:{allSto e.stores}{logStr (e.logs.drop nlog0)}{balStr e.bal}{crStr e.created}").toArray.qsort (· < ·) |>.toList
       s!"sat={if names.isEmpty then "-" else ",".intercalate names}"
     | _, _, _, _, _, _, _, _, _ => "bad-op"
   | ["steps", code, nargs, loop, fuel, orc] =>
@@ -216,7 +240,7 @@ def handle (codes : List (Nat × List Nat)) (line : String) : String :=
     match hexBytes? code, nargs.toNat?, loop.toNat?, fuel.toNat? with
     | some code, some nargs, some loop, some fuel =>
       let o : Oracle := fun _ _ => if orc.startsWith "sat" then .sat else .unknown
-      let static := orc.endsWith "+static"
+      let static := hasStatic orc
       let cs := (MAIN, code) :: codes
       let res0 := runC drvSimp o { loop, depth := 0, balances := true, sha3 := true, create := true, hsto := true } (mkEnv nargs static) cs MAIN fuel
       if res0.outOfFuel then "steps=0" else
